@@ -59,6 +59,9 @@ pub fn str_args() -> impl Strategy<Value = ArgList> {
             Just("Z".to_string()),
             Just("k-1".to_string()),
             Just("k-12".to_string()),
+            // Debug renderings of tuples / maps contain commas.
+            Just("(1, 2)".to_string()),
+            Just("p,q".to_string()),
             "[a-d][a-d0-9]{0,3}",
         ],
         0..=6,
